@@ -10,10 +10,13 @@ Ops:
   `writeabort hist <event>…`     → `recorded`
 One history = the external events of one run of the real `UDPMuxDefault` over the scripted socket, in
 recording order.  Event tokens:
-  `wc:<i>:<c|b>` writeToContext called by writer i (c = cancellable context)   `pc:<i>` same, probe at quiescence
+  `wc:<i>:<c|b|a>` write called by writer i: c/b = writeToContext or handle.WriteTo (c = cancellable context),
+                   a = the netip.AddrPort path (handle.WriteToAddrPort → udpMuxedConn.WriteToAddrPort → writeToUDPAddrPort)
+  `pc:<i>` / `pc:<i>:a` same, probe at quiescence
   `wr:<i>:<ok|timeout|canceled|other>` … returned                             `pr:<i>:<res>` probe returned
   `cx:<i>` context of writer i cancelled
-  `sc:<i>` socket WriteTo entered by writer i      `sr:<i>:<ok|to>` its outcome decided
+  `sc:<i>` socket WriteTo entered by writer i, `sa:<i>` socket WriteToAddrPort entered by writer i
+  `sr:<i>:<ok|to|err>` its outcome decided (err = an error that is not the deadline's)
   `ac:<j>` abortWrite called                       `ar:<j>:<ok|fail>` returned
   `sd:<now|zero>:<ok|fail>` SetWriteDeadline seen by the socket
   `q:<writeState>:<zero|past>` quiescent observation        `stuck` calls did not return
@@ -33,13 +36,17 @@ def parseRes (s : String) : WResult :=
 
 def parseEv (tok : String) : Option Ev :=
   match tok.splitOn ":" with
-  | ["wc", i, c] => i.toNat?.map (fun i => Ev.wcall i (c = "c") false)
+  | ["wc", i, c] => if c = "c" ∨ c = "b" ∨ c = "a" then i.toNat?.map (fun i => Ev.wcall i (c = "c") false) else none
   | ["pc", i] => i.toNat?.map (fun i => Ev.wcall i false true)
+  | ["pc", i, "a"] => i.toNat?.map (fun i => Ev.wcall i false true)
   | ["wr", i, r] => i.toNat?.map (fun i => Ev.wret i (parseRes r) false)
   | ["pr", i, r] => i.toNat?.map (fun i => Ev.wret i (parseRes r) true)
   | ["cx", i] => i.toNat?.map Ev.cancel
-  | ["sc", i] => i.toNat?.map Ev.sockCall
-  | ["sr", i, r] => i.toNat?.bind (fun i => if r = "ok" then some (Ev.sockRet i true) else if r = "to" then some (Ev.sockRet i false) else none)
+  | ["sc", i] => i.toNat?.map (fun i => Ev.sockCall i false)
+  | ["sa", i] => i.toNat?.map (fun i => Ev.sockCall i true)
+  | ["sr", i, r] => i.toNat?.bind (fun i =>
+      if r = "ok" then some (Ev.sockRet i .ok) else if r = "to" then some (Ev.sockRet i .timeout)
+      else if r = "err" then some (Ev.sockRet i .err) else none)
   | ["ac", j] => j.toNat?.map Ev.acall
   | ["ar", j, r] => j.toNat?.bind (fun j => if r = "ok" then some (Ev.aret j true) else if r = "fail" then some (Ev.aret j false) else none)
   | ["sd", w, r] =>
@@ -116,11 +123,11 @@ def observe (c : Ctx) (e : Ev) (n : Node) : List Node :=
     | some s' => [{ n with st := s' }]
     | none => []
   | .cancel _ => [n]
-  | .sockCall i => match lookup c.wmap i with
+  | .sockCall i _ => match lookup c.wmap i with
     | some idx => if wrLoc n idx == some .w1 then [n] else []
     | none => []
-  | .sockRet i ok => match lookup c.wmap i with
-    | some idx => match step n.st (.writeRet idx (if ok then .ok else .timeout)) with
+  | .sockRet i r => match lookup c.wmap i with
+    | some idx => match step n.st (.writeRet idx (match r with | .ok => WRes.ok | .timeout => WRes.timeout | .err => WRes.err)) with
       | some s' => [{ n with st := s' }]
       | none => []
     | none => []
@@ -148,7 +155,7 @@ def updCtx (c : Ctx) (e : Ev) : Ctx :=
   match e with
   | .wcall i _ _ => { c with wmap := (i, c.wmap.length) :: c.wmap }
   | .cancel i => { c with cancelled := i :: c.cancelled }
-  | .sockCall i => { c with sockCalled := i :: c.sockCalled }
+  | .sockCall i _ => { c with sockCalled := i :: c.sockCalled }
   | .wret i _ _ => { c with returned := i :: c.returned }
   | _ => c
 
@@ -156,7 +163,7 @@ def updCtx (c : Ctx) (e : Ev) : Ctx :=
 def evOk (c : Ctx) (e : Ev) : Bool :=
   match e with
   | .wcall i _ _ => (lookup c.wmap i).isNone
-  | .sockCall i => (lookup c.wmap i).isSome && !c.sockCalled.contains i
+  | .sockCall i _ => (lookup c.wmap i).isSome && !c.sockCalled.contains i
   | .sockRet i _ => c.sockCalled.contains i
   | .wret i _ _ => (lookup c.wmap i).isSome && !c.returned.contains i
   | _ => true
